@@ -21,6 +21,17 @@ EXP void verif_force_drag(struct reb_simulation* r){
     }
 }
 
+/* pre/post_timestep_modifications callback: a weak velocity damping on every body but the first.  The
+ * library synchronises before calling it and must pick the edit up afterwards (recalculate flags). */
+EXP void verif_ptm_damp(struct reb_simulation* r){
+    const int N = r->N - r->N_var;
+    for (int i = 1; i < N; i++){
+        r->particles[i].vx *= 1. - 1e-5;
+        r->particles[i].vy *= 1. - 1e-5;
+        r->particles[i].vz *= 1. - 1e-5;
+    }
+}
+
 /* ------------------------------------------------------------------------------------------
  * Recording heartbeat: logs every step boundary the integrate loop reaches (called once before
  * the loop and after every step, always before reb_check_exit), and executes a small event
